@@ -397,6 +397,11 @@ func (fi *fileInstr) rewriteStmt(s ast.Stmt) ast.Stmt {
 			clauses = append(clauses, &ast.CaseClause{Case: cc.Case, List: []ast.Expr{&ast.BasicLit{Kind: token.INT, Value: fmt.Sprint(idx)}}, Body: body})
 			idx++
 		}
+		if hasDefault == "false" {
+			// a select whose every case ends in a terminating statement is itself terminating; the switch that replaces it
+			// is only when it has a default clause
+			clauses = append(clauses, &ast.CaseClause{Case: x.Body.Rbrace, Body: []ast.Stmt{&ast.ExprStmt{X: &ast.CallExpr{Fun: ast.NewIdent("panic"), Args: []ast.Expr{&ast.BasicLit{Kind: token.STRING, Value: `"vsched: select chose no case"`}}}}}})
+		}
 		args := append([]ast.Expr{ast.NewIdent(hasDefault)}, chans...)
 		sw := &ast.SwitchStmt{Switch: pos, Tag: &ast.CallExpr{Fun: fi.vs("Select", pos), Args: args}, Body: &ast.BlockStmt{Lbrace: x.Body.Lbrace, List: clauses, Rbrace: x.Body.Rbrace}}
 		if len(pre) == 0 {
